@@ -60,6 +60,9 @@ type WS struct {
 	Via string `json:"via,omitempty"`
 	// Symlinks inside the workspace: path -> target (as given to symlink(2): relative to the link's directory, or absolute)
 	Symlinks map[string]string `json:"symlinks,omitempty"`
+	// Repeat: corpus only; run the workspace this many times per policy (the order in which the linter reports
+	// violations, and with it the order of the moves, differs from run to run)
+	Repeat int `json:"repeat,omitempty"`
 }
 
 func Content(f WFile) string {
